@@ -340,10 +340,10 @@ func vacuityGuards(units []*UnitResult, jobs []*VCJob, dir string) []string {
 		// sample distinct paths across the whole range of assumption-list lengths (some paths are legitimately
 		// infeasible); the unit passes if any sampled path is satisfiable
 		sort.Slice(js, func(a, b int) bool { return len(js[a].Obl.Assume) > len(js[b].Obl.Assume) })
-		if len(js) > 16 {
+		if len(js) > 64 {
 			var pick []*VCJob
-			for k := 0; k < 16; k++ {
-				pick = append(pick, js[k*(len(js)-1)/15])
+			for k := 0; k < 64; k++ {
+				pick = append(pick, js[k*(len(js)-1)/63])
 			}
 			js = pick
 		}
@@ -374,7 +374,7 @@ func vacuityGuards(units []*UnitResult, jobs []*VCJob, dir string) []string {
 			os.WriteFile(f, []byte(b.String()), 0644)
 			chks = append(chks, &chk{u: u, file: f})
 			n++
-			if n >= 12 {
+			if n >= 48 {
 				break
 			}
 		}
